@@ -32,6 +32,8 @@ struct SchedStats {
   long long childFirstStarts = 0;    // thread creations where the new thread was run first
   long long creatorFirstStarts = 0;  // ... where its creator was run first
   long long startOrderTimeouts = 0;  // child-first waits that timed out (must stay 0)
+  long long sequentialSolves = 0;    // solves run by the creator with no other thread alive (pass-through)
+  bool degraded = false;             // the scheduler gave up in this process (see sched.cpp), nothing was serialised
   uint64_t grantHash = 0;        // hash chain of (worker, site) in grant order
   uint64_t stepSigHash = 0;      // hash over per-step interleaving signatures
 };
